@@ -240,9 +240,10 @@ def post():
             problems.append("game %s: protocol outside the grammar: %s" % (g["id"], json.dumps(pr)[:80]))
             continue
         x = g["request_settings"]
-        cx = "(mk_extra %s %s %s %s)" % (coq_opt(x["gather_players"], coq_toggle), coq_opt(x["gather_rules"], coq_toggle),
+        cx = "(mk_xs %s %s %s %s %s)" % (coq_opt(x["gather_players"], coq_toggle), coq_opt(x["gather_rules"], coq_toggle),
                                          coq_opt(x["check_app_id"], lambda b: "true" if b else "false"),
-                                         "true" if (x["hostname"] is not None or x["protocol_version"] is not None) else "false")
+                                         coq_opt(x["hostname"], lambda h: "(str %s)" % cstr(h)),
+                                         coq_opt(x["protocol_version"], lambda z: "(%d)%%Z" % z))
         rows.append("mkdef %s %s %d %s %s" % (cstr(g["id"]), cstr(g["name"]), g["default_port"], cp, cx))
     v = ["(* GENERATED by tools/translate_games.py post from the GAMES static of the built crate: do not edit. *)",
          "From GD Require Import Base.Prelude Model.Net Model.Valve Model.Dispatch.", "Require Import String.", "Local Open Scope string_scope.", "",
